@@ -148,7 +148,7 @@ func init() {
 			return s
 		},
 		Run:  c20Run,
-		Rule: "truncate: every string of length <=4 (5 thorough) over {a, é, 世, U+0301, \\xff, < > & ' \" = \\n \\\\ U+2028} x size in [-2,9] ∪ {50,70} x 6 trails (incl. empty, multi-byte, longer than size), and patterned strings (a^n, é^n, (a é 世 \\xff)^n) of every length 0..64 x size in [-2,70] x 6 trails; laws: unchanged if <= size characters, else byte-prefix-on-a-character-boundary + trail with at most max(size, |trail|) characters, valid UTF-8 preserved; default size 50 / trail '...'. htmlEscape / jsEscape / raw over every string of length <=4 (5) of the same alphabet (direct call and through a template): no raw specials, quotes and line breaks escaped, raw byte-identical. toJSON over a recursive value generator (incl. template.HTML strings such as the result of raw()) to depth 2 (3) and every top-level string of length <=3 over {a, \\n, \\t, \\x01, \", \\\\, <, é, U+2028, DEL, ', /}: valid JSON, decodes back to v (numbers as float64), no raw < > &, template result identical to the direct call. Non-trivial: strings containing a multi-byte/invalid/special character or a truncation that actually cuts.",
+		Rule: "truncate: every string of length <=4 (5 thorough) over {a, é, 世, U+0301, \\xff, < > & ' \" = \\n \\\\ U+2028} x size in [-2,9] ∪ {50,70} x 6 trails (incl. empty, multi-byte, longer than size), and patterned strings (a^n, é^n, (a é 世 \\xff)^n) of every length 0..64 x size in [-2,70] x 6 trails; laws: unchanged if <= size characters, else byte-prefix-on-a-character-boundary + trail with at most max(size, |trail|) characters, valid UTF-8 preserved; default size 50 / trail '...'. htmlEscape / jsEscape / raw over every string of length <=4 (5) of the same alphabet (direct call and through a template): no raw specials, quotes and line breaks escaped, raw byte-identical. toJSON over a recursive value generator (incl. template.HTML strings such as the result of raw()) to depth 2 (3) and every top-level string of length <=3 over {a, \\n, \\t, \\x01, \", \\\\, <, é, U+2028, DEL, ', /}: valid JSON, decodes back to v (numbers as float64), no raw < > &, template result identical to the direct call; every ordered pair of a reduced value list (plus 70..200-byte strings): a result held while toJSON is called again still is the JSON of its own argument (directly and through let). Non-trivial: strings containing a multi-byte/invalid/special character or a truncation that actually cuts.",
 		Bound: func(th bool) string {
 			if th {
 				return "strings of length <=5 over a 14-symbol alphabet; patterned length 0..64; JSON depth 3"
@@ -292,6 +292,47 @@ func c20Run(t *engine.T, shard string) {
 				}
 				return "json-ok", nil
 			})
+		}
+		// results are values: an earlier result is still the JSON of its own argument after later calls
+		// (every ordered pair of a reduced value list, directly and through let bindings in a template)
+		var pool []interface{}
+		for i, v := range vals {
+			if i%7 == 0 || i < 14 {
+				pool = append(pool, v)
+			}
+		}
+		pool = append(pool, strings.Repeat("x", 70), strings.Repeat("y", 200), map[string]interface{}{"k": strings.Repeat("z", 90)})
+		for i, v1 := range pool {
+			for j, v2 := range pool {
+				v1, v2 := v1, v2
+				if v1 == nil || v2 == nil {
+					continue
+				}
+				t.Case(fmt.Sprintf("toJSON held result #%d then #%d", i, j), true, func() (string, *engine.Fail) {
+					r1, err := encoders.ToJSON(v1)
+					if err != nil {
+						return "", engine.Failf("toJSON", "error %v", err)
+					}
+					want1 := string(append([]byte{}, r1...)) // private copy of the bytes
+					r2, err := encoders.ToJSON(v2)
+					if err != nil {
+						return "", engine.Failf("toJSON", "error %v", err)
+					}
+					want2 := string(append([]byte{}, r2...))
+					r3, _ := encoders.ToJSON(v1)
+					if string(r1) != want1 || string(r2) != want2 || string(r3) != want1 {
+						return "", engine.Failf("toJSON", "a result changed after a later call: first %q (was %q), second %q (was %q), third %q", r1, want1, r2, want2, r3)
+					}
+					ctx := plush.NewContext()
+					ctx.Set("v1", v1)
+					ctx.Set("v2", v2)
+					out, err := Render(`<% let a = toJSON(v1) %><% let b = toJSON(v2) %><% let c = toJSON(v1) %><%= a %>|<%= b %>|<%= c %>`, ctx)
+					if err != nil || out != want1+"|"+want2+"|"+want1 {
+						return "", engine.Failf("toJSON", "held through let: expected %q, got %q / %v", want1+"|"+want2+"|"+want1, out, err)
+					}
+					return "json-held", nil
+				})
+			}
 		}
 	}
 }
